@@ -8,7 +8,7 @@ def run(chk):
     quick = chk.tier == "quick"
     chk.rule = ("two whole networks on the fabric with a small concurrent-stream limit (4-16): 3-8x that many RPCs abandoned at instants sweeping the whole exchange "
                 "(before transmission, mid-request over a slow link, while the handler sleeps, after completion), interleaved with live calls; the serving side's "
-                "started/completed/dropped handler counters, the live calls' results and fresh RPCs in both directions afterwards are checked; distinct = scenario; non-trivial = all")
+                "started/completed/dropped handler counters, the live calls' results and fresh RPCs in both directions afterwards are checked; abandoned calls may carry far-away timeout headers / defaults; (T) both ends' per-RPC events are replayed on Rpc.v (RpcTrace.erun): acceptance, invocations, responses, and every abandoned stream closed at the accepting side; distinct = scenario; non-trivial = all")
     if not chk.prepare():
         return
     simnet.c12(chk)
